@@ -12,6 +12,7 @@ def main():
         run(['git', '-C', '/repo', 'worktree', 'add', '--detach', wt, 'HEAD'])
         extra = [tuple(x.split(' ', 1)) for x in sys.argv[2:]]
         cfgs = extra + [('g++', '-std=c++20'), ('g++', '-std=c++17'), ('g++', '-std=c++23'), ('clang++-14', '-std=c++20'), ('g++', '-std=c++17 -O2 -DNDEBUG')]
+        if os.environ.get('SEED_ONLY_EXTRA'): cfgs = extra      # a demonstration written for particular language modes only
         def demo(tag):
             res = {}
             for comp, flags in cfgs:
